@@ -1,12 +1,60 @@
 import Driver.Util
+import Faithful.Lib.AccumCar
+import Faithful.Lib.Hash
 open Drv
 
+/-! model side of the C15 line protocol (see harness/tree/accum/c15_test.go): one answer line per op line -/
 namespace DrvC15
+open Accum
 
-/-- model side of the C15 line protocol: one answer line per op line -/
+def hexRaw (b : List UInt8) : String :=
+  String.ofList (b.flatMap fun x => [hexDigit (x.toNat / 16), hexDigit (x.toNat % 16)])
+
+def showObj (o : Obj) : String :=
+  s!"{o.kind.toNat}:{hexRaw o.cid}@{o.offset}+{o.secLen}#{hexNat (H.xxhash64 o.data).toNat 16}"
+
+def showGroup (g : Group) : String :=
+  (match g.parent with | none => "nil" | some p => showObj p) ++ "[" ++ ",".intercalate (g.children.map showObj) ++ "]"
+
+def canon (gs : List Group) : String :=
+  let s := ";".intercalate (gs.map showGroup)
+  if s.utf8ByteSize > 6000 then
+    let n := (gs.map fun g => g.members.length).sum
+    s!"g={gs.length} o={n} xx={hexNat (H.xxhash64 s.toUTF8.toList).toNat 16}"
+  else s!"g={gs.length} {s}"
+
+def parseKinds (w : String) : List UInt8 :=
+  if w = "-" then [] else (w.splitOn ",").map fun p => UInt8.ofNat p.toNat!
+
+structure St where
+  car : Option Car := none
+  bytes : List UInt8 := []
+
+def step (st : St) (l : String) : St × String :=
+  match words l with
+  | "case" :: _ => (st, "ok")
+  | ["car", h] =>
+    let b := unhex h
+    match parse b with
+    | none => ({ car := none, bytes := [] }, "err")
+    | some c => ({ car := some c, bytes := b },
+        s!"car hdr={c.header.length} secs={c.secs.length} xx={hexNat (H.xxhash64 b).toNat 16}")
+  | ["run", ig, k, skip, _mode, _procs, _seed] =>
+    match st.car with
+    | none => (st, "nocar")
+    | some c =>
+      let skip := skip.toNat!
+      -- `data[1]` on a node with fewer than two bytes: index out of range in the reading goroutine
+      if !(c.secs.drop skip).all (fun s => decide (2 ≤ s.data.length)) then (st, "panic")
+      else (st, canon (run c (parseKinds ig) (UInt8.ofNat k.toNat!) skip))
+  | _ => (st, "bad-op")
+
 def run (lines : Array String) : IO Unit := do
   let out ← IO.getStdout
-  for _ in lines do
-    out.putStrLn "unimplemented"
+  let mut st : St := {}
+  for l in lines do
+    let (st', o) := step st l
+    st := st'
+    out.putStrLn o
 
 end DrvC15
